@@ -10,7 +10,7 @@ import c23
 PROPERTY = "C06"
 TITLE = "The compiler never crashes or hangs, whatever it is given"
 NEEDS = ("syn", "facts")
-TECHNIQUE = "static analysis: parser progress abstract interpretation (shared with C23), call-graph reachability of todo!/unimplemented! from main with a per-site triage table, belief/use contradiction on polymorphic globals"
+TECHNIQUE = "static analysis: parser progress abstract interpretation (shared with C23), call-graph reachability of todo!/unimplemented! from main with a per-site triage table, belief/use contradiction on polymorphic globals, abstract evaluation of the diagnostic renderer (end position; snippet arithmetic and slicing over every range shape and column)"
 EXPLANATION = (
     "Three decidable fragments of 'never panics, never hangs': (a) the parser cannot loop without consuming input and has no "
     "left recursion (the abstract interpretation of C23 R23.a/b, re-run here); (b) resolved call-graph reachability from "
